@@ -142,6 +142,21 @@ func getStreamFix() *streamFix {
 }
 
 func (f *streamFix) reset() *config.Configuration {
+	return f.resetWith(false)
+}
+
+// resetWith optionally sets GIT_LFS_PROGRESS (an absolute log path), which
+// switches the filters to their progress-reporting copy path.
+func (f *streamFix) resetWith(progress bool) *config.Configuration {
+	if progress {
+		os.Setenv("GIT_LFS_PROGRESS", filepath.Join(filepath.Dir(f.work), "progress.log"))
+	} else {
+		os.Unsetenv("GIT_LFS_PROGRESS")
+	}
+	return f.reset0()
+}
+
+func (f *streamFix) reset0() *config.Configuration {
 	os.RemoveAll(filepath.Join(f.git, "lfs"))
 	ents, _ := os.ReadDir(f.work)
 	for _, e := range ents {
@@ -258,6 +273,10 @@ func GenPointerish(t *sim.Tape) (data []byte, marks []int, class string) {
 		s := v[t.Choose(len(v), "alike")]
 		return []byte(s), []int{len(s), 20}, "not-quite-pointer"
 	case 6:
+		if t.Choose(2, "small-kind") == 1 {
+			ws := []string{"\n", " ", "\r\n", "\n\n\n", "\t", " \n \n", strings.Repeat(" ", 1023), strings.Repeat("\n", 1024)}[t.Choose(8, "whitespace-form")]
+			return []byte(ws), []int{len(ws), 1}, "whitespace-only"
+		}
 		n := []int{1, 5, 100, 1023}[t.Choose(4, "small-len")]
 		return pseudo(n, uint64(n)+3, false), []int{n, 1}, "small-binary"
 	case 7:
@@ -278,9 +297,17 @@ func GenContent(t *sim.Tape) (data []byte, marks []int, class string) {
 	if n == 2500000 && k >= len(sizes) {
 		n = 5000
 	}
-	kind := t.Choose(4, "content-kind")
+	kind := t.Choose(5, "content-kind")
 	var b []byte
 	switch kind {
+	case 4:
+		// whitespace only: still content, never "empty"
+		ws := []string{"\n", " ", "\r\n", "\t\n"}[t.Choose(4, "ws-unit")]
+		if n == 0 {
+			n = 1
+		}
+		b = []byte(strings.Repeat(ws, n/len(ws)+1))[:n]
+		class = "whitespace-only"
 	case 0:
 		b = pseudo(n, uint64(n)+11, false)
 		class = "binary"
@@ -328,9 +355,13 @@ type StreamCase struct {
 
 func runStream(rc *RunCtx, gen func(*sim.Tape) ([]byte, []int, string), prop string) {
 	fx := getStreamFix()
-	fx.reset()
 	t := rc.Tape
+	progress := t.Choose(3, "GIT_LFS_PROGRESS") == 1
+	fx.resetWith(progress)
 	data, marks, class := gen(t)
+	if progress {
+		class += "+progress-log"
+	}
 	sizes, eofWD := GenChunks(t, len(data), marks)
 	name := "dir/file.bin"
 	wt := []string{"absent", "same", "shorter", "longer", "pointer"}[t.Choose(5, "worktree-state")]
